@@ -9,7 +9,10 @@ Families == [ collide  |-> {"a-b", "a_b", "aB", "a b", "A_B"},
               digits   |-> {"1", "_1", "01"},
               symbols  |-> {"$", "%", ""},
               keywords |-> {"class", "Class", "class_"},
-              suffix   |-> {"v", "V", "v_2", "V2", "v_1", "v_2_2"} ]
+              suffix   |-> {"v", "V", "v_2", "V2", "v_1", "v_2_2"},
+              \* "{FB01}" stands for the code point U+FB01 (the harness decodes it): names that are different strings
+              \* but ONE identifier after the interpreter's NFKC normalisation (ligature fi, full-width f)
+              nfkc     |-> {"file", "{FB01}le", "{FF46}ile"} ]
 
 InjSeqs(S, k) == {q \in [1..k -> S] : \A i, j \in 1..k : i # j => q[i] # q[j]}
 \* the operation de-duplication runs twice on the generation path, so an operationId clash needs one more name
